@@ -476,6 +476,16 @@ class CompleteStageHandler(
                                         stage_id=downstream.id,
                                     )
                                 )
+                            # Every downstream stage has finished already (an
+                            # early-firing join): nothing after this stage is
+                            # left to report the end of its branch.
+                            if phase is None and all(d.status.is_complete for d in downstream_stages):
+                                txn.push_message(
+                                    CompleteWorkflow(
+                                        execution_type=execution.type.value,
+                                        execution_id=execution.id,
+                                    )
+                                )
                         elif downstream_stages and not skipped_downstreams:
                             # All downstreams came from split logic but none activated
                             # (shouldn't normally happen for AND-split)
